@@ -724,6 +724,8 @@ class Weaver:
 
     # ------------------------------------------------------------------
     def _auto_rules(self, src, toks, it, loops, add, elog, norules, f, fn, twins=()):
+        if "ALL" in norules:
+            return      # plain extraction (Kani): the function text is emitted byte for byte
         T = lambda i: toks[i]
         lo, hi = it.body_open + 1, it.body_close
         line = lambda off: src.count("\n", 0, off) + 1
